@@ -384,6 +384,12 @@ static void s_once(const plan_t *p)
         }
         case S_SWAP: {
             static struct mstr t;
+            if (o->a[1] % 8 == 3) {
+                if (w) TRY(cstl_wstring_swap(&ws[d], &ws[d])); else TRY(cstl_string_swap(&ns[d], &ns[d]));
+                if (g_aborted) VIOL("abort", "swap aborted");
+                PROBE("self_swap"); EVT("swap_self", d, 0, w);
+                break;
+            }
             if (w) TRY(cstl_wstring_swap(&ws[d], &ws[s2])); else TRY(cstl_string_swap(&ns[d], &ns[s2]));
             if (g_aborted) VIOL("abort", "swap aborted");
             t = *m; *m = *ms; *ms = t;
